@@ -190,6 +190,8 @@ class UnitResult:
         self.probes = {}
         self.assumption_notes = []
         self.wall_s = 0
+        self.degraded = []
+        self.degraded_fns = []
 
     def to_json(self):
         return {k: getattr(self, k) for k in ('name', 'status', 'reason', 'failed', 'fired', 'smt_ms', 'verified_fns',
@@ -303,7 +305,16 @@ def run_unit(unit_name, index_tuple=None, with_probes=True, params=None):
     try:
         path, ix, th = index_tuple or expanded()
         unit = Unit(unit_name) if params is None else Unit(unit_name, params)
-        asm = assemble(unit, ix)
+        try:
+            asm = assemble(unit, ix)
+        except ExtractError as e:
+            if 'lost anchor' not in str(e):
+                raise
+            # degraded mode (DESIGN.md 3.7): the function was rewritten and a proof hint has no place to go.
+            # Keep every contract, drop the orphaned hints; a failure is then reported only with a replayed witness.
+            asm = assemble(unit, ix, lenient=True)
+            res.degraded = [('%s: %s' % x) for x in asm.lost]
+            res.degraded_fns = sorted(set(x[0] for x in asm.lost))
     except ExtractError as e:
         res.status = 'inconclusive'
         res.reason = 'extraction: %s' % e
@@ -325,7 +336,19 @@ def run_unit(unit_name, index_tuple=None, with_probes=True, params=None):
     res.verus = {k: vr[k] for k in ('cmd', 'rc', 'timed_out', 'wall_s', 'cached')}
     res.all_diags = vr['diags']
     _interpret(res, vr, asm)
-    if with_probes and res.status in ('ok', 'failed'):
+    if res.degraded:
+        # obligations of rewritten functions are undecided unless a witness confirms them
+        if res.status == 'inconclusive' and not res.reason.startswith('verus timeout'):
+            res.failed = [{'name': '%s::%s::degraded[proof hints lost after a rewrite: %s]' % (unit_name, fn, '; '.join(x for x in res.degraded if x.startswith(fn + ':'))),
+                           'unit': unit_name, 'fn': fn, 'kind': 'degraded', 'clause': None, 'site': None, 'site_line': None, 'lib_site': None,
+                           'props': next((f['props'] for f in asm.fns if f['name'] == fn), []),
+                           'message': 'verus: ' + res.reason, 'rendered': res.reason, 'needs_witness': True} for fn in res.degraded_fns]
+            res.status = 'failed'
+        for fo in res.failed:
+            if fo.get('fn') in res.degraded_fns:
+                fo['needs_witness'] = True
+        res.reason = (res.reason + ' ' if res.reason else '') + 'DEGRADED: ' + '; '.join(res.degraded)
+    if with_probes and res.status in ('ok', 'failed') and not res.degraded:
         _run_probes(res, unit, ix)
     res.wall_s = round(time.time() - t0, 2)
     return res
